@@ -99,6 +99,9 @@ func runC07(c *Ctx) {
 	runC07FromRaw(c, pi)
 	runC07MapCopy(c)
 	runC07OwnState(c, pi)
+	runC07AssertFirst(c)
+	runC07CopyNoAlias(c)
+	runC07SelfMove(c)
 }
 
 func paramName(fn *ssa.Function, i int) string {
@@ -410,7 +413,19 @@ func runC07Cov(c *Ctx, pi *pdataInfo) {
 					missing = append(missing, f)
 					continue
 				}
-				if esc, _ := reachesReturnWithout(fn, nil, via); esc {
+				// copying an object onto itself: nothing to write on that side of the identity test
+				sg := selfGuardExit(fn)
+				esc := false
+				for _, r := range returnsOf(fn) {
+					if sg != nil && (sg.Block() == r.Block() || sg.Block().Dominates(r.Block())) {
+						continue
+					}
+					e := entryInstr(fn)
+					if e == ssa.Instruction(r) || (!via[e] && canReach(e, r, via)) {
+						esc = true
+					}
+				}
+				if esc {
 					partial = append(partial, f)
 				}
 			}
@@ -592,7 +607,7 @@ func runC07Move(c *Ctx, pi *pdataInfo) {
 					toDest = append(toDest, s)
 				}
 				if isWholeOrig(pi, s.Addr, src) {
-					if isZeroValue(s.Val) {
+					if isZeroValue(s.Val) || isEmptySliceLit(s.Val) {
 						zeroSrc = append(zeroSrc, s)
 					}
 				}
